@@ -274,4 +274,115 @@ func ruleValCons(c *Ctx) {
 		})
 		c.check(bad == token.NoPos, "print-uses-ofmt", bad, "printArgs converts every argument with OFMT, in every output mode", "printArgs converts an argument with toString (CONVFMT): in that output mode `print` ignores OFMT")
 	}
+	// (4) the whole-string recogniser and the prefix converter agree on what surrounds and what bounds a number
+	ruleNumParse(c)
+}
+
+// ruleNumParse: parseFloat (is this text a number?) and parseFloatPrefix (which number?) are siblings:
+// a text the first accepts must be converted in full by the second.
+func ruleNumParse(c *Ctx) {
+	rec := c.funcDecl("interp", "parseFloat")
+	conv := c.funcDecl("interp", "parseFloatPrefix")
+	if rec == nil || conv == nil {
+		c.undecided("anchor:parseFloat", token.NoPos, "parseFloat / parseFloatPrefix not found")
+		return
+	}
+	info := c.pkg("interp").TypesInfo
+	// white space: which classifier each side uses
+	wsOf := func(fd *ast.FuncDecl) (tables []string, calls []string) {
+		ast.Inspect(fd.Body, func(n ast.Node) bool {
+			switch x := n.(type) {
+			case *ast.IndexExpr:
+				if id, ok := x.X.(*ast.Ident); ok {
+					if v, ok := info.Uses[id].(*types.Var); ok && v.Parent() == v.Pkg().Scope() && strings.Contains(strings.ToLower(v.Name()), "space") {
+						tables = append(tables, v.Name())
+					}
+				}
+			case *ast.CallExpr:
+				if se, ok := x.Fun.(*ast.SelectorExpr); ok {
+					if f, ok := info.Uses[se.Sel].(*types.Func); ok && f.Pkg() != nil {
+						full := f.Pkg().Path() + "." + f.Name()
+						switch full {
+						case "strings.TrimSpace", "strings.TrimFunc", "strings.TrimLeftFunc", "strings.TrimRightFunc", "unicode.IsSpace", "strings.Fields", "bytes.TrimSpace":
+							calls = append(calls, full)
+						}
+					}
+				}
+			}
+			return true
+		})
+		return
+	}
+	rt, rc := wsOf(rec)
+	ct, cc := wsOf(conv)
+	same := len(rc) == 0 && len(cc) == 0 && len(rt) > 0 && len(ct) > 0
+	if same {
+		for _, t := range rt {
+			if t != ct[0] {
+				same = false
+			}
+		}
+		for _, t := range ct {
+			if t != ct[0] {
+				same = false
+			}
+		}
+	}
+	c.check(same, "numparse:whitespace", rec.Pos(),
+		"both skip surrounding blanks with the same table",
+		"parseFloat and parseFloatPrefix do not skip surrounding blanks by the same table (recogniser: tables "+strings.Join(rt, ",")+" calls "+strings.Join(rc, ",")+"; converter: tables "+strings.Join(ct, ",")+" calls "+strings.Join(cc, ",")+"): text with a blank only one of them knows is a number in comparisons and 0 in arithmetic")
+	// range: the converter returns what ParseFloat returns on a range error (its error is discarded); the recogniser must not reject it
+	convDiscards := false
+	ast.Inspect(conv.Body, func(n ast.Node) bool {
+		if as, ok := n.(*ast.AssignStmt); ok && len(as.Lhs) == 2 && len(as.Rhs) == 1 && isIdent(as.Lhs[1], "_") {
+			if call, ok := as.Rhs[0].(*ast.CallExpr); ok {
+				if se, ok := call.Fun.(*ast.SelectorExpr); ok && se.Sel.Name == "ParseFloat" {
+					convDiscards = true
+				}
+			}
+		}
+		return true
+	})
+	recAccepts := false
+	var parsePos token.Pos
+	ast.Inspect(rec.Body, func(n ast.Node) bool {
+		if call, ok := n.(*ast.CallExpr); ok {
+			if se, ok := call.Fun.(*ast.SelectorExpr); ok && se.Sel.Name == "ParseFloat" && parsePos == token.NoPos {
+				parsePos = call.Pos()
+			}
+		}
+		is, ok := n.(*ast.IfStmt)
+		if !ok || parsePos == token.NoPos || is.Pos() < parsePos {
+			return true
+		}
+		mentions := false
+		ast.Inspect(is.Cond, func(m ast.Node) bool {
+			if se, ok := m.(*ast.SelectorExpr); ok && se.Sel.Name == "ErrRange" {
+				mentions = true
+			}
+			return true
+		})
+		if is.Init != nil {
+			ast.Inspect(is.Init, func(m ast.Node) bool {
+				if se, ok := m.(*ast.SelectorExpr); ok && se.Sel.Name == "ErrRange" {
+					mentions = true
+				}
+				return true
+			})
+		}
+		if !mentions {
+			return true
+		}
+		for _, st := range is.Body.List {
+			if as, ok := st.(*ast.AssignStmt); ok && len(as.Lhs) == 1 && len(as.Rhs) == 1 && isIdent(as.Rhs[0], "nil") {
+				if t := info.TypeOf(as.Lhs[0]); t != nil && t.String() == "error" {
+					recAccepts = true
+				}
+			}
+		}
+		return true
+	})
+	c.check(!convDiscards || recAccepts, "numparse:range", rec.Pos(),
+		"a value out of float64's range is a number (infinity) on both sides",
+		"parseFloatPrefix turns an out-of-range numeral into infinity (it discards ParseFloat's error) but parseFloat rejects it (no branch clears the error when it is strconv.ErrRange): the field 1e400 compares as a string yet is inf in arithmetic")
 }
